@@ -30,6 +30,8 @@ SPEC = {
             "Kron/Composite/Loop/nested composites containing them, random terms) built with sampled (all, thorough) direct/Rc<RefCell>/FFI-pointer patterns "
             "while the cells hold decoys, every route called once, cells overwritten, then every route again on the same object "
             "vs model and embed(matrix) at the NEW values; "
+            "plus VectorState states split into 65/100/129/200 ranges (63..257 thorough; n=1..3) through apply_gate (vsapplym), apply_unary_gate_all (vsunarym) and apply_conditional_gate; "
+            "plus Loop terms with 17/20/33/64 iterations (15..100 thorough) alone, under C, inside Composite, Kron and an outer Loop on every route; "
             "gates::bit_permutation for every tuple (n<=5 quick, n<=6 thorough); plus a malformed stream "
             "(row counts that are not a multiple of 2^k, wrong arity, repeated and out-of-range qubits, wrong state size; panics caught). "
             "(A) implementation vs Lean model route to 1e-12; (B) implementation vs embed(n, bits, matrix())*v to 1e-9, "
